@@ -63,7 +63,9 @@ def piecewise(rng):
             for _ in range(rng.randrange(0, 5)):
                 c = rng.random()
                 if c < 0.35:
-                    body += rng.choice(["a", "?", "$", " ", "1", "é"] + [d for d in "'\"`[" if d != st and CLOSER.get(d, d) != CLOSER[st]])
+                    # (inside [..] a further [ is a plain character: only ] closes the token)
+                    body += rng.choice(["a", "?", "$", " ", "1", "é"] + [d for d in "'\"`[" if CLOSER.get(d, d) != CLOSER[st]]
+                                       + (["[", "[?"] if st == "[" else []))
                 elif c < 0.55 and st != "[":
                     body += CLOSER[st] * 2                      # doubled delimiter
                 else:
